@@ -979,7 +979,9 @@ class Printer:
                     if e is None:
                         raise Unsupported(f'default member initialiser of {any_["name"]} is not in the dump')
                 self.hoisted = []
-                ie = self.expr(e)
+                # a reference member (`const T& m;` modelled as a pointer field) is bound, not copied: take the address
+                is_ref_field = any_.get('type', {}).get('qualType', '').rstrip().endswith('&')
+                ie = self.addr(e) if is_ref_field else self.expr(e)
                 pre += ''.join(f'  {h}\n' for h in self.hoisted)
                 self.hoisted = None
                 pre += f'  self->{any_["name"]} = {ie};\n' + self.after('  ')
